@@ -288,6 +288,8 @@ class PhasePredictor(QTable):
                     coeffs += f.readline().translate(d2e).split()
 
                 coeffs = np.array(coeffs, dtype=np.float64)
+                if coeffs.size < 2:
+                    coeffs = np.pad(coeffs, (0, 2 - coeffs.size))
                 coeffs[0] += float("0." + r_frac)
                 coeffs[1] += float(f0) * 60
 
